@@ -14,7 +14,7 @@ tie   : (0) translator (every run): translate/cxx2lean.py (spec `interrupt`) reg
             step by step; every observable (check(), previous callback, threw?) is compared with the model.
         (2) stream `ops` (ASan+LSan build): for ~45 interruptible operations of the C API (+ the old RelateOp via
             the C++ API) and generated inputs: a clean run with a counting callback gives N and the clean result;
-            then for k in a stratified subset of 1..N (all k when N <= 7 quick / N <= 32 thorough) the callback requests at poll k, plus
+            then for k in a stratified subset of 1..N (all k when N <= 7 quick / N <= 24 thorough) the callback requests at poll k, plus
             request-before-call, cancelled request, callback-cancel, GEOS_init_r-cancel and k = N+1.  Observed:
             error value returned, message contains "nterrupt", polls executed, flag after the call, a following
             benign call (no GEOS_interruptCancel in between) completes with the clean bytes after N polls, inputs'
